@@ -420,7 +420,7 @@ def gen_cases(ctx, ps, nmax=None, reps=1):
                         pfam = 'pi-at'
                     cases.append(dict(base, kind='kppi', pimax=float(pimax), npi=npi, pifam=pfam, L=float(Lp)))
                 # ---- calc_pk_from_deltak (float32 accumulators, complex128 field)
-                if dt == 'f4':
+                for _ in range(3 if dt == 'f4' else 0):
                     fam, L, ke = fams[int(rng.integers(0, len(fams)))]
                     T = int(rng.choice(NTHREADS))
                     mfam, mu = mu_families(rng, nm_hint=int(rng.choice([1, 1, 2, 4])))
